@@ -40,6 +40,9 @@ Proof. apply truncation_bytes_ascii_ctl, gen_tables_ok. Qed.
 Lemma fctl_layouts_numeric : forall adv, numeric_layout (fctl_layout adv) = true.
 Proof. intros [|]; vm_compute; reflexivity. Qed.
 
+Lemma fctl_render_ascii adv rc : asciib (render (fctl_layout adv) rc) = true.
+Proof. apply render_numeric_ascii, fctl_layouts_numeric. Qed.
+
 Lemma c04_truncation_bytes_written f le k adv rc :
   le_ok le -> file_typed f = true -> starts99 (f_ctl f) = false -> utf8_records f ->
   f_ctl f = render (fctl_layout adv) rc ->
